@@ -33,6 +33,7 @@ func TestC07(t *testing.T) {
 	}
 	forCases(n, 107, "h", func(i int, r *rng, id string) { randomHistory("C07", r, id, 2, 40) })
 	forCases(n/200+4, 1071, "c", func(i int, r *rng, id string) { c07Conc(r, id) })
+	forCases(n/1500+2, 1072, "p", func(i int, r *rng, id string) { c07Poll(r, id) })
 }
 
 // C08: address conflicts / reclaim / departures: the non-local table plus random histories.
@@ -58,7 +59,10 @@ func c18Src(r *rng, id string) {
 		}
 		return false
 	}
-	rcv, err := newCnode(ccfg{name: "R", cidrs: alist})
+	if r.chance(1, 4) && c18Transport(r, id, alist, oracle) {
+		return
+	}
+	rcv, err := newCnode(ccfg{name: "R", cidrs: alist, altRep: r.chance(1, 2)})
 	if err != nil {
 		emit("C18 src id=%s err=create", id)
 		return
@@ -104,6 +108,72 @@ func c18Src(r *rng, id string) {
 	emit("C18 src id=%s src=%d inner=%d innerok=%d carrier=%s listed=%d recorded=%d events=%d panic=%d", id, srcOK, inner, innerOK, carrier, listed, recorded, len(evs), pan)
 }
 
+// c18Transport: the same question asked of the stock network transport: a packet handed to
+// NetTransport.IngestPacket (the ingestion entry point for packets that arrived over some other
+// carrier) comes from the address the caller names, whatever the carrying connection's peer is.
+func c18Transport(r *rng, id string, alist []string, oracle func(net.IP) bool) bool {
+	nets, _ := ml.ParseCIDRs(alist)
+	nt, err := ml.NewNetTransport(&ml.NetTransportConfig{BindAddrs: []string{"127.0.0.1"}, BindPort: 0, Logger: log.New(io.Discard, "", 0)})
+	if err != nil {
+		return false // no loopback sockets here: the caller falls back to the in-memory carrier
+	}
+	conf := ml.DefaultLANConfig()
+	conf.Name = "R"
+	conf.Transport = nt
+	conf.AdvertiseAddr = "10.0.0.9"
+	conf.AdvertisePort = 7946
+	conf.BindPort = 7946
+	conf.ProbeInterval = time.Hour
+	conf.GossipInterval = 0
+	conf.PushPullInterval = 0
+	conf.CIDRsAllowed = nets
+	conf.Logger = log.New(io.Discard, "", 0)
+	m, err := ml.Create(conf)
+	if err != nil {
+		nt.Shutdown()
+		return false
+	}
+	defer m.Shutdown()
+	pool := newAddrPool()
+	src := []string{"10.0.0.1:7946", "192.168.0.9:7946", "[fd00::7]:7946", "[2001:db8::1]:7946", "10.200.1.1:1", "10.0.32.1:7946", "128.0.0.1:7946", "100.0.0.1:7946"}[r.intn(8)]
+	inner := []int{1, 2, 3, 9, 10, 11, 12}[r.intn(7)]
+	ua, _ := net.ResolveUDPAddr("udp", src)
+	vsn := []uint8{1, 5, 2, 0, 0, 0}
+	pan := 0
+	feed := func(msg []byte, from net.Addr) {
+		defer func() {
+			if rec := recover(); rec != nil {
+				pan = 1
+			}
+		}()
+		// the carrying connection's peer is fromAddr (10.0.0.1, inside every list)
+		nt.IngestPacket(newFragConn(msg, nil), from, time.Now(), false)
+	}
+	has := func(name string) bool {
+		for _, n := range ml.VerifSnapshotState(m).Nodes {
+			if n.Name == name {
+				return true
+			}
+		}
+		return false
+	}
+	feed(ml.VerifEncodeAlive(uint32(1+r.intn(3)), "n1", pool.addrs[inner], 7946, nil, vsn), ua)
+	// sentinel behind it on the same queue, from an address and about an address every list allows
+	feed(ml.VerifEncodeAlive(1, "zz", pool.addrs[2], 7946, nil, vsn), fromAddr)
+	for i := 0; i < 4000 && !has("zz"); i++ {
+		time.Sleep(100 * time.Microsecond)
+	}
+	listed := 0
+	for _, n := range m.Members() {
+		if n.Name == "n1" {
+			listed = 1
+		}
+	}
+	emit("C18 src id=%s src=%d inner=%d innerok=%d carrier=transport listed=%d recorded=%d events=%d panic=%d sentinel=%d", id,
+		b2i(oracle(ua.IP)), inner, b2i(oracle(net.IP(pool.addrs[inner]))), listed, b2i(has("n1")), listed, pan, b2i(has("zz")))
+	return true
+}
+
 // c07Conc: concurrent claims about different members; the event delegate checks that no
 // callback starts while another one is still running.
 func c07Conc(r *rng, id string) {
@@ -142,6 +212,171 @@ func c07Conc(r *rng, id string) {
 	emit("C07 conc id=%s callbacks=%d overlap=%d", id, cd.calls.Load(), cd.overlaps.Load())
 }
 
+// c07Poll: the application polls Members() while claims arrive on other goroutines (joins,
+// failures, rejoins, reaping passes). Event callbacks run under the membership lock, so a correct
+// Members() equals the replay of the event stream at some moment between its call and its return.
+type pollDel struct {
+	mu      sync.Mutex
+	member  map[string]bool
+	changes []pollChange
+}
+type pollChange struct {
+	name string
+	join bool
+}
+
+func (d *pollDel) NotifyJoin(n *ml.Node) {
+	d.mu.Lock()
+	d.member[n.Name] = true
+	d.changes = append(d.changes, pollChange{n.Name, true})
+	d.mu.Unlock()
+}
+func (d *pollDel) NotifyLeave(n *ml.Node) {
+	d.mu.Lock()
+	delete(d.member, n.Name)
+	d.changes = append(d.changes, pollChange{n.Name, false})
+	d.mu.Unlock()
+}
+func (d *pollDel) NotifyUpdate(*ml.Node) {}
+
+func c07Poll(r *rng, id string) {
+	d := &pollDel{member: map[string]bool{}}
+	conf := ml.DefaultLANConfig()
+	conf.Name = "S"
+	conf.Transport = newNullTransport()
+	conf.AdvertiseAddr = "10.0.0.9"
+	conf.AdvertisePort = 7946
+	conf.BindPort = 7946
+	conf.ProbeInterval = time.Hour
+	conf.GossipInterval = 0
+	conf.PushPullInterval = 0
+	conf.GossipToTheDeadTime = time.Millisecond
+	conf.DeadNodeReclaimTime = time.Millisecond
+	conf.Events = d
+	conf.Logger = log.New(io.Discard, "", 0)
+	m, err := ml.Create(conf)
+	if err != nil {
+		return
+	}
+	defer m.Shutdown()
+	vsn := []uint8{1, 5, 2, 0, 0, 0}
+	base := 1000 + r.intn(2000)
+	late := 15000 + r.intn(10000)
+	withDeaths := r.chance(1, 2)
+	add := func(i int, inc uint32) {
+		ml.VerifAliveNode(m, inc, fmt.Sprintf("p%d", i), []byte{10, byte(i >> 16), byte(i >> 8), byte(i)}, 7946, nil, vsn, nil, false)
+	}
+	for i := 0; i < base; i++ {
+		add(i, 1)
+	}
+	var done atomic.Bool
+	var wg sync.WaitGroup
+	workers := 2
+	seeds := []uint64{r.next(), r.next()}
+	for w := 0; w < workers; w++ {
+		wg.Add(1)
+		go func(w int) {
+			defer wg.Done()
+			wr := &rng{s: seeds[w] | 1}
+			for i := base + w; i < base+late && !done.Load(); i += workers {
+				add(i, 1)
+				if withDeaths && wr.chance(1, 8) {
+					v := wr.intn(i)
+					ml.VerifDeadNode(m, 1, fmt.Sprintf("p%d", v), "S")
+					if wr.chance(1, 2) {
+						add(v, 2)
+					}
+				}
+				if withDeaths && wr.chance(1, 400) {
+					ml.VerifResetNodes(m)
+				}
+			}
+		}(w)
+	}
+	var writersDone atomic.Bool
+	go func() { wg.Wait(); writersDone.Store(true) }()
+	polls, pan := 0, 0
+	bad := ""
+	for !writersDone.Load() && bad == "" && pan == 0 {
+		polls++
+		d.mu.Lock()
+		b := len(d.changes)
+		cur := make(map[string]bool, len(d.member))
+		for k := range d.member {
+			cur[k] = true
+		}
+		d.mu.Unlock()
+		var res []*ml.Node
+		func() {
+			defer func() {
+				if rec := recover(); rec != nil {
+					pan = 1
+				}
+			}()
+			res = m.Members()
+		}()
+		if pan != 0 {
+			break
+		}
+		d.mu.Lock()
+		delta := append([]pollChange(nil), d.changes[b:]...)
+		d.mu.Unlock()
+		got := make(map[string]bool, len(res))
+		dup := ""
+		for _, n := range res {
+			if got[n.Name] {
+				dup = n.Name
+			}
+			got[n.Name] = true
+		}
+		if dup != "" {
+			bad = fmt.Sprintf("poll-%d-lists-%s-twice", polls, dup)
+			break
+		}
+		// number of names on which cur and got differ; a match at any prefix of delta is a witness
+		diff := 0
+		for k := range cur {
+			if !got[k] {
+				diff++
+			}
+		}
+		for k := range got {
+			if !cur[k] {
+				diff++
+			}
+		}
+		matched := diff == 0
+		for _, c := range delta {
+			if matched {
+				break
+			}
+			was := cur[c.name]
+			if was != c.join {
+				if was == got[c.name] {
+					diff++
+				} else {
+					diff--
+				}
+				if c.join {
+					cur[c.name] = true
+				} else {
+					delete(cur, c.name)
+				}
+			}
+			matched = diff == 0
+		}
+		if !matched {
+			bad = fmt.Sprintf("poll-%d-result-of-%d-members-equals-the-event-replay-at-no-moment-of-the-call(%d-events-during-it)", polls, len(res), len(delta))
+		}
+	}
+	done.Store(true)
+	wg.Wait()
+	if bad == "" {
+		bad = "-"
+	}
+	emit("C07 poll id=%s base=%d late=%d deaths=%d polls=%d panic=%d bad=%s", id, base, late, b2i(withDeaths), polls, pan, bad)
+}
+
 type concDel struct {
 	inside   atomic.Int32
 	calls    atomic.Int64
@@ -173,6 +408,7 @@ func TestC18(t *testing.T) {
 		c := randomCfg(r)
 		c.allowlist = true
 		c.alist = r.intn(len(allowLists))
+		c.altRep = r.chance(1, 2)
 		k := 1 + r.intn(30)
 		ops := make([]mop, 0, k)
 		nt := 0
